@@ -247,6 +247,10 @@ pub struct Env {
     /// frozen for a long time)
     #[serde(default)]
     pub stall: u8,
+    /// failed lock acquisitions of each thread that are retried by the lock's
+    /// own loop instead of being modelled as blocking
+    #[serde(default)]
+    pub lock_spin: u8,
 }
 
 #[derive(Clone, Debug, PartialEq, Eq, Hash, PartialOrd, Ord, Serialize, Deserialize)]
